@@ -14,7 +14,7 @@ SimInit == MCInit /\ hist = <<>> /\ fms0 = fms
 SimNext ==
     IF SilentEnabled THEN Silent /\ UNCHANGED <<nchg, hist, fms0>>
     ELSE \E ev \in SimInputs : /\ EvNext(ev)
-                            /\ nchg' = nchg + (IF ev.e \in {"ds", "fms", "sel", "end"} THEN 1 ELSE 0)
+                            /\ nchg' = nchg + (IF ev.e \in {"ds", "fms", "sel", "end", "choose"} THEN 1 ELSE 0)
                             /\ hist' = Append(hist, ev) /\ UNCHANGED fms0
 SimSpec == SimInit /\ [][SimNext]_<<rvars, nchg, hist, fms0>>
 SimStop == Len(hist) <= SimDepth
